@@ -65,7 +65,8 @@ func (d *deduplicationStrategy) eval(
 	var rewriteKeys [][]byte
 	var rewriteValues [][]byte
 	// first, check if the whole entity is equal to the previous entity
-	if server.IsEntityEqual(d.prevEntityBytes, entityBytes, d.prev, e) {
+	duplicate := server.IsEntityEqual(d.prevEntityBytes, entityBytes, d.prev, e)
+	if duplicate {
 		// if to be deleted... delete 5 key types for each change version:
 		// 1.delete json entry (key already in keysToDelete)
 		del = append(del, jsonKey)
@@ -128,6 +129,13 @@ func (d *deduplicationStrategy) eval(
 			}
 		}
 	}
+	if !duplicate {
+		// this version stays, also when some of its reference keys are removed:
+		// it is what the next version must be compared with
+		d.prevJsonKey = jsonKey
+		d.prevEntityBytes = entityBytes
+		d.prev = e
+	}
 	if len(del) > 0 {
 		res := &compactionInstruction{
 			DeleteKeys: del,
@@ -138,9 +146,6 @@ func (d *deduplicationStrategy) eval(
 		}
 		return res, nil
 	}
-	d.prevJsonKey = jsonKey
-	d.prevEntityBytes = entityBytes
-	d.prev = e
 	return nil, nil
 }
 
